@@ -35,9 +35,17 @@ def Backed (s' : State) (qid : Nat) (cfg : Cfg) (c : Content) : Prop :=
 /-- `ok c` is the merge of a split: the reply `op` completed query `q` while it held at least two versions and
 `c` is the (non-empty) sorted union of the transactions of all versions. -/
 def Merged (q : Query) (op : Op) (c : Content) : Prop :=
-  ∃ p c0, op = .found q.qid p c0 ∧ 2 ≤ (addPeer q.results c0 p).1.length ∧
+  ∃ p c0 fk, op = .found q.qid p c0 fk ∧ 2 ≤ (addPeer q.results c0 p).1.length ∧
     c = .txs (txUnion ((addPeer q.results c0 p).1.map (·.1))) ∧
     txUnion ((addPeer q.results c0 p).1.map (·.1)) ≠ []
+
+/-- a reply whose record carries a foreign key is answered `ok` only if the same reply under the query's key is -/
+theorem sendCheckedK_ok {cfg : Cfg} {c c' : Content} {k : Bool} (h : sendCheckedK cfg c k = .ok c') :
+    sendChecked cfg c = .ok c' := by
+  unfold sendCheckedK at h
+  split at h
+  · exact h
+  · simp [targetChecked] at h
 
 theorem findQ_of_mem {s : State} (h : Inv s) {q : Query} (hq : q ∈ s.pending) :
     findQ q.qid s.pending = some q := by
@@ -49,7 +57,7 @@ theorem findQ_of_mem {s : State} (h : Inv s) {q : Query} (hq : q ∈ s.pending) 
 
 /-- the entries of the history of replies are events of the history -/
 theorem returned_are_events (ops : List Op) (qid p : Nat) (c : Content)
-    (h : (qid, p, c) ∈ (run ops).returned) : Op.found qid p c ∈ ops :=
+    (h : (qid, p, c) ∈ (run ops).returned) : ∃ fk, Op.found qid p c fk ∈ ops :=
   returned_sound ops (qid, p, c) h
 
 /-- **`ok` needs a quorum.** Whenever a step delivers `ok c` to a caller, the caller was waiting on a pending
@@ -63,12 +71,13 @@ theorem ok_has_quorum (ops : List Op) (op : Op) (caller : Nat) (c : Content)
   have inv := inv_run ops
   obtain ⟨q, hq, hcaller, hcases⟩ := step_deliveries h
   refine ⟨q, hq, hcaller, ?_⟩
-  rcases hcases with ⟨p, c0, hop, hreach, ho⟩ | ⟨_, ho⟩ | ⟨_, ho⟩ | ⟨_, ho⟩
+  rcases hcases with ⟨p, c0, fk, hop, hreach, ho⟩ | ⟨_, ho⟩ | ⟨_, ho⟩ | ⟨_, ho⟩
   · rcases ho with ho | ho
     · unfold completedOutcome at ho
       split at ho
       · -- single version
         left
+        have ho := (sendCheckedK_ok ho.symm).symm
         simp only [sendChecked, targetChecked, if_true] at ho
         split at ho
         · rename_i htm
@@ -97,7 +106,7 @@ theorem ok_has_quorum (ops : List Op) (op : Op) (caller : Nat) (c : Content)
           injection ho with hc
           obtain ⟨ps, hmem, _, _⟩ := addPeer_has q.results c0 p
           have hpos : 0 < (addPeer q.results c0 p).1.length := List.length_pos_of_mem hmem
-          refine ⟨p, c0, hop, ?_, hc, ?_⟩
+          refine ⟨p, c0, fk, hop, ?_, hc, ?_⟩
           · simp at hlen; omega
           · intro h0; simp [h0] at hne
     · cases ho
@@ -163,7 +172,7 @@ theorem finished_timeout_deliver_no_ok (ops : List Op) (qid caller : Nat) (o : O
   constructor
   · intro h c hc
     obtain ⟨q, hq, _, hcases⟩ := step_deliveries h
-    rcases hcases with ⟨p, c0, hop, _⟩ | ⟨_, ho⟩ | ⟨hop, _⟩ | ⟨hop, _⟩
+    rcases hcases with ⟨p, c0, fk, hop, _⟩ | ⟨_, ho⟩ | ⟨hop, _⟩ | ⟨hop, _⟩
     · cases hop
     · rcases ho with ho | ho
       · exact (finished_ok_unreachable ops q hq).1 c (by rw [← ho, hc])
@@ -172,7 +181,7 @@ theorem finished_timeout_deliver_no_ok (ops : List Op) (qid caller : Nat) (o : O
     · cases hop
   · intro h
     obtain ⟨q, hq, _, hcases⟩ := step_deliveries h
-    rcases hcases with ⟨p, c0, hop, _⟩ | ⟨hop, _⟩ | ⟨hop, _⟩ | ⟨_, ho⟩
+    rcases hcases with ⟨p, c0, fk, hop, _⟩ | ⟨hop, _⟩ | ⟨hop, _⟩ | ⟨_, ho⟩
     · cases hop
     · cases hop
     · rcases hop with hop | hop <;> cases hop
@@ -183,10 +192,10 @@ theorem finished_timeout_deliver_no_ok (ops : List Op) (qid caller : Nat) (o : O
 /-- **A peer answering twice counts once.** A reply from a peer that already returned this very content to
 a pending query changes nothing: same pending map, nothing delivered. -/
 theorem dup_peer_counts_once (ops : List Op) (q : Query) (hq : q ∈ (run ops).pending)
-    (c : Content) (ps : List Nat) (p : Nat) (hm : (c, ps) ∈ q.results) (hp : p ∈ ps) :
-    (step (run ops) (.found q.qid p c)).1.pending = (run ops).pending ∧
-    (step (run ops) (.found q.qid p c)).2.deliveries = [] ∧
-    (step (run ops) (.found q.qid p c)).2.ret = .ok := by
+    (c : Content) (ps : List Nat) (p : Nat) (fk : Option Nat) (hm : (c, ps) ∈ q.results) (hp : p ∈ ps) :
+    (step (run ops) (.found q.qid p c fk)).1.pending = (run ops).pending ∧
+    (step (run ops) (.found q.qid p c fk)).2.deliveries = [] ∧
+    (step (run ops) (.found q.qid p c fk)).2.ret = .ok := by
   have inv := inv_run ops
   have hadd := addPeer_dup (inv.verNodup q hq) hm hp
   have hlt : ps.length < quorumOf q.cfg := inv.below q hq (c, ps) hm
@@ -235,22 +244,22 @@ def kdHistory : List Op :=
 is in flight; after a single reply both receive `ok`. -/
 theorem joiner_inherits_cfg_witness :
     (1, 0, ({ quorum := .all, target := none, isReg := false } : Cfg)) ∈ (run kdHistory).asked ∧
-    (step (run kdHistory) (.found 0 1 (.hdr .chunk 0))).2.deliveries =
+    (step (run kdHistory) (.found 0 1 (.hdr .chunk 0) none)).2.deliveries =
       [(0, .ok (.hdr .chunk 0)), (1, .ok (.hdr .chunk 0))] ∧
-    (step (run kdHistory) (.found 0 1 (.hdr .chunk 0))).1.returned = [(0, 1, .hdr .chunk 0)] ∧
+    (step (run kdHistory) (.found 0 1 (.hdr .chunk 0) none)).1.returned = [(0, 1, .hdr .chunk 0)] ∧
     getQuorumValue .all = 5 := by
   refine ⟨by decide, by decide, by decide, by decide⟩
 
 theorem not_okHasQuorumOwnCfg : ¬ OkHasQuorumOwnCfg := by
   intro h
   obtain ⟨hasked, hdel, hret, hq⟩ := joiner_inherits_cfg_witness
-  rcases h kdHistory (.found 0 1 (.hdr .chunk 0)) 1 0 _ (.hdr .chunk 0) hasked (by rw [hdel]; simp) with
-    ⟨q, hqm, p, c0, hop, hlen, _⟩ | ⟨qid, ps, hnd, hlen, hall, _⟩
+  rcases h kdHistory (.found 0 1 (.hdr .chunk 0) none) 1 0 _ (.hdr .chunk 0) hasked (by rw [hdel]; simp) with
+    ⟨q, hqm, p, c0, fk, hop, hlen, _⟩ | ⟨qid, ps, hnd, hlen, hall, _⟩
   · have hp : (run kdHistory).pending =
         [{ qid := 0, key := 0, senders := [0, 1], results := [], cfg := { quorum := .one, target := none, isReg := false } }] := by decide
     rw [hp] at hqm
     simp at hqm; subst hqm
-    injection hop with _ h2 h3
+    injection hop with _ h2 h3 _
     subst h2; subst h3
     simp [addPeer] at hlen
   · rw [hret] at hall
@@ -283,12 +292,12 @@ def OkMatchesTarget : Prop :=
 
 def kd2History : List Op :=
   [.get 0 0 { quorum := .n 2, target := some (.txs [0]), isReg := false },
-   .found 0 1 (.txs [1]), .found 0 2 (.txs [0])]
+   .found 0 1 (.txs [1]) none, .found 0 2 (.txs [0]) none]
 
 /-- **Witness (K-d2).** The caller expects `t0`; one peer returned `t1`, two returned `t0`: it receives
 `ok t0.1`. -/
 theorem merged_skips_target_witness :
-    (step (run kd2History) (.found 0 3 (.txs [0]))).2.deliveries = [(0, .ok (.txs [0, 1]))] ∧
+    (step (run kd2History) (.found 0 3 (.txs [0]) none)).2.deliveries = [(0, .ok (.txs [0, 1]))] ∧
     (∃ q ∈ (run kd2History).pending, 0 ∈ q.senders ∧ targetMatch q.cfg (.txs [0, 1]) = false) := by
   refine ⟨by decide, ?_⟩
   refine ⟨{ qid := 0, key := 0, senders := [0], results := [(.txs [1], [1]), (.txs [0], [2])],
@@ -297,7 +306,7 @@ theorem merged_skips_target_witness :
 theorem not_okMatchesTarget : ¬ OkMatchesTarget := by
   intro h
   obtain ⟨hdel, q, hq, hs, htm⟩ := merged_skips_target_witness
-  have := h kd2History (.found 0 3 (.txs [0])) 0 (.txs [0, 1]) (by rw [hdel]; simp) q hq hs
+  have := h kd2History (.found 0 3 (.txs [0]) none) 0 (.txs [0, 1]) (by rw [hdel]; simp) q hq hs
   rw [htm] at this; cases this
 
 /-- **Partial (K-d2).** Outside the transaction merge of a split a delivered `ok` matches the target
@@ -382,7 +391,7 @@ example : targetMatch { quorum := .one, target := some (.reg 0 true [1]), isReg 
 
 /-- the version map a query holds when `op` is handled -/
 def resultsAt (q : Query) : Op → List (Content × List Nat)
-  | .found _ p c => (addPeer q.results c p).1
+  | .found _ p c _ => (addPeer q.results c p).1
   | _ => q.results
 
 /-- **Split.** When a step answers the callers of a query that holds two or more versions, every caller
@@ -398,7 +407,7 @@ theorem split_returns_all_or_merge (ops : List Op) (op : Op) (caller : Nat) (o :
   obtain ⟨q, hq, hcaller, hcases⟩ := step_deliveries h
   refine ⟨q, hq, hcaller, ?_⟩
   intro hlen
-  rcases hcases with ⟨p, c0, hop, _, ho⟩ | ⟨hop, ho⟩ | ⟨hop, ho⟩ | ⟨hop, ho⟩
+  rcases hcases with ⟨p, c0, fk, hop, _, ho⟩ | ⟨hop, ho⟩ | ⟨hop, ho⟩ | ⟨hop, ho⟩
   · subst hop
     simp only [resultsAt] at hlen ⊢
     rcases ho with ho | ho
@@ -435,6 +444,139 @@ theorem split_returns_all_or_merge (ops : List Op) (op : Op) (caller : Nat) (o :
       · rename_i hres; rw [hres] at hlen; simp at hlen
       · rfl
     · right; right; right; right; exact ho
+
+/-! ## The key carried by a reply's record (candidate finding K-d3)
+
+libp2p-kad hands a `FoundRecord` to the handlers without comparing `record.key` with the key of the query, and
+`accumulate_get_record_found` never compares it either: versions are keyed and counted by the hash of the *value*
+alone, and the record handed to the callers is the completing reply's own record. -/
+
+/-- Full strength: the record delivered with `ok` carries the requested key. -/
+def OkCarriesRequestedKey : Prop :=
+  ∀ (ops : List Op) (op : Op) (caller : Nat) (c : Content),
+    (caller, Outcome.ok c) ∈ (step (run ops) op).2.deliveries →
+    ∀ q ∈ (run ops).pending, caller ∈ q.senders → deliveredKey (run ops) q op c = q.key
+
+/-- **Witness.** One reply to a `Quorum::One` read of key 0 whose record carries key 1: the caller receives `ok`
+and the record it receives carries key 1. -/
+theorem foreign_key_returned_witness :
+    (step (run [.get 0 0 { quorum := .one, target := none, isReg := false }]) (.found 0 1 (.hdr .chunk 0) (some 1))).2.deliveries
+      = [(0, .ok (.hdr .chunk 0))] ∧
+    (∃ q ∈ (run [.get 0 0 { quorum := .one, target := none, isReg := false }]).pending, 0 ∈ q.senders ∧ q.key = 0 ∧
+      deliveredKey (run [.get 0 0 { quorum := .one, target := none, isReg := false }]) q
+        (.found 0 1 (.hdr .chunk 0) (some 1)) (.hdr .chunk 0) = 1) := by
+  refine ⟨by decide, ?_⟩
+  exact ⟨{ qid := 0, key := 0, senders := [0], results := [], cfg := { quorum := .one, target := none, isReg := false } },
+    by decide, by decide, rfl, rfl⟩
+
+theorem not_okCarriesRequestedKey : ¬ OkCarriesRequestedKey := by
+  intro h
+  obtain ⟨hdel, q, hq, hs, hk, hd⟩ := foreign_key_returned_witness
+  have := h [.get 0 0 { quorum := .one, target := none, isReg := false }] (.found 0 1 (.hdr .chunk 0) (some 1)) 0
+    (.hdr .chunk 0) (by rw [hdel]; simp) q hq hs
+  rw [hd, hk] at this
+  cases this
+
+/-- **Partial.** The record delivered with `ok` carries the key of the reply that completed the quorum; if that
+reply carried the query's key (`fk = none`), so does the delivered record. (An `ok` is only ever delivered by a
+reply, see `finished_timeout_deliver_no_ok`.) -/
+theorem ok_key_partial (ops : List Op) (op : Op) (caller : Nat) (c : Content)
+    (h : (caller, Outcome.ok c) ∈ (step (run ops) op).2.deliveries) :
+    ∃ q ∈ (run ops).pending, caller ∈ q.senders ∧ ∃ p c0 fk, op = .found q.qid p c0 fk ∧
+      deliveredKey (run ops) q op c = fk.getD q.key ∧ (fk = none → deliveredKey (run ops) q op c = q.key) := by
+  obtain ⟨q, hq, hc, hcases⟩ := step_deliveries h
+  refine ⟨q, hq, hc, ?_⟩
+  rcases hcases with ⟨p, c0, fk, hop, _, _⟩ | ⟨hop, ho⟩ | ⟨hop, ho⟩ | ⟨hop, ho⟩
+  · subst hop
+    exact ⟨p, c0, fk, rfl, rfl, fun hfk => by subst hfk; rfl⟩
+  · exfalso
+    rcases ho with ho | ho
+    · exact (finished_ok_unreachable ops q hq).1 c ho.symm
+    · cases ho
+  · exfalso; rcases ho with ho | ho <;> cases ho
+  · exfalso
+    rcases ho with ho | ho
+    · rw [(finished_ok_unreachable ops q hq).2] at ho; cases ho
+    · cases ho
+
+/-- `ok c` is backed by a quorum *for key `key`*: at least `Q(cfg)` distinct peers each returned `c` in a record
+carrying `key`. -/
+def BackedForKey (s' : State) (qid : Nat) (cfg : Cfg) (c : Content) (key : Nat) : Prop :=
+  ∃ ps : List Nat, ps.Nodup ∧ getQuorumValue cfg.quorum ≤ ps.length ∧ ∀ p ∈ ps, (qid, p, c, key) ∈ s'.keys
+
+/-- Full strength: the quorum behind an `ok` consists of peers that returned the content *for the requested key*. -/
+def OkHasQuorumForRequestedKey : Prop :=
+  ∀ (ops : List Op) (op : Op) (caller : Nat) (c : Content),
+    (caller, Outcome.ok c) ∈ (step (run ops) op).2.deliveries →
+    ∀ q ∈ (run ops).pending, caller ∈ q.senders →
+      BackedForKey (step (run ops) op).1 q.qid q.cfg c q.key ∨ Merged q op c
+
+def kd3History : List Op :=
+  [.get 0 0 { quorum := .n 2, target := none, isReg := false }, .found 0 1 (.hdr .chunk 0) (some 1)]
+
+/-- **Witness.** Quorum 2 for key 0: peer 1 returns the content in a record carrying key 1, peer 2 under key 0;
+the caller receives `ok` although a single peer returned that content for the requested key. -/
+theorem quorum_counts_foreign_key_witness :
+    (step (run kd3History) (.found 0 2 (.hdr .chunk 0) none)).2.deliveries = [(0, .ok (.hdr .chunk 0))] ∧
+    (step (run kd3History) (.found 0 2 (.hdr .chunk 0) none)).1.keys = [(0, 1, .hdr .chunk 0, 1), (0, 2, .hdr .chunk 0, 0)] ∧
+    (run kd3History).pending = [{ qid := 0, key := 0, senders := [0], results := [(.hdr .chunk 0, [1])],
+                                  cfg := { quorum := .n 2, target := none, isReg := false } }] := by
+  refine ⟨by decide, by decide, by decide⟩
+
+theorem not_okHasQuorumForRequestedKey : ¬ OkHasQuorumForRequestedKey := by
+  intro h
+  obtain ⟨hdel, hkeys, hpend⟩ := quorum_counts_foreign_key_witness
+  rcases h kd3History (.found 0 2 (.hdr .chunk 0) none) 0 (.hdr .chunk 0) (by rw [hdel]; simp)
+      { qid := 0, key := 0, senders := [0], results := [(.hdr .chunk 0, [1])],
+        cfg := { quorum := .n 2, target := none, isReg := false } }
+      (by rw [hpend]; exact List.mem_singleton.2 rfl) (by simp) with
+    ⟨ps, hnd, hlen, hall⟩ | ⟨p, c0, fk, hop, hlen, _⟩
+  · rw [hkeys] at hall
+    simp only [getQuorumValue] at hlen
+    match ps, hnd, hlen, hall with
+    | a :: b :: _, hnd, _, hall =>
+      have ha := hall a (by simp)
+      have hb := hall b (by simp)
+      simp at ha hb
+      simp [ha, hb] at hnd
+    | [], _, hlen, _ => simp at hlen
+    | [_], _, hlen, _ => simp at hlen
+  · injection hop with _ h2 h3 _
+    subst h2; subst h3
+    simp [addPeer] at hlen
+
+/-- **Partial.** If every reply recorded for the query (including the completing one) carried the query's key —
+which is what libp2p-kad is assumed to deliver from honest peers — the quorum behind a non-merged `ok` consists
+of peers that returned the content for the requested key. -/
+theorem ok_has_quorum_for_key_partial (ops : List Op) (op : Op) (caller : Nat) (c : Content)
+    (h : (caller, Outcome.ok c) ∈ (step (run ops) op).2.deliveries) :
+    ∃ q ∈ (run ops).pending, caller ∈ q.senders ∧
+      ((∀ p c' k, (q.qid, p, c', k) ∈ (step (run ops) op).1.keys → k = q.key) →
+        BackedForKey (step (run ops) op).1 q.qid q.cfg c q.key ∨ Merged q op c) := by
+  obtain ⟨q, hq, hc, hb⟩ := ok_has_quorum ops op caller c h
+  refine ⟨q, hq, hc, ?_⟩
+  intro hon
+  rcases hb with ⟨ps, hnd, hlen, hall, _⟩ | hm
+  · left
+    refine ⟨ps, hnd, hlen, ?_⟩
+    intro p hp
+    have hcov : KeysCover (step (run ops) op).1 := keysCover_step (keysCover_run ops) op
+    obtain ⟨k, hk⟩ := hcov _ (hall p hp)
+    have := hon p c k hk
+    subst this
+    exact hk
+  · right; exact hm
+
+/-- the key history consists of replies of the history (an explicit key on the event is the recorded one) -/
+theorem keys_are_events (ops : List Op) (qid p : Nat) (c : Content) (k : Nat)
+    (h : (qid, p, c, k) ∈ (run ops).keys) : ∃ fk, Op.found qid p c fk ∈ ops ∧ ∀ k', fk = some k' → k = k' :=
+  keys_sound ops (qid, p, c, k) h
+
+-- a foreign key never equals a plain target (whole records are compared), an `is_register` target ignores it
+example : (step (run [.get 0 0 { quorum := .one, target := some (.hdr .chunk 0), isReg := false }])
+      (.found 0 1 (.hdr .chunk 0) (some 1))).2.deliveries = [(0, .mismatch (.hdr .chunk 0))] := by decide
+example : (step (run [.get 0 0 { quorum := .one, target := some (.reg 0 true [1]), isReg := true }])
+      (.found 0 1 (.reg 0 true [1]) (some 1))).2.deliveries = [(0, .ok (.reg 0 true [1]))] := by decide
 
 /-! ## Exactly one outcome per caller -/
 
@@ -497,7 +639,7 @@ theorem deliveries_only_on_removal (ops : List Op) (op : Op) (caller : Nat) (o :
   obtain ⟨q, hq, hcaller, hcases⟩ := step_deliveries h
   refine ⟨q, hq, hcaller, ?_⟩
   have hf := findQ_of_mem inv hq
-  rcases hcases with ⟨p, c0, hop, hreach, _⟩ | ⟨hop, _⟩ | ⟨hop, _⟩ | ⟨hop, _⟩
+  rcases hcases with ⟨p, c0, fk, hop, hreach, _⟩ | ⟨hop, _⟩ | ⟨hop, _⟩ | ⟨hop, _⟩
   · subst hop
     intro x hx
     simp [step, hf, hreach, terminate] at hx
@@ -722,17 +864,17 @@ theorem merge_order_independent {order order' : List Content} (hp : order.Perm o
 example : getQuorumValue .one = 1 ∧ getQuorumValue .majority = 3 ∧ getQuorumValue .all = 5 ∧ getQuorumValue (.n 4) = 4 := by decide
 -- three distinct peers satisfy a majority; the caller gets the value
 example : (step (run [.get 0 0 { quorum := .majority, target := none, isReg := false },
-      .found 0 1 (.hdr .chunk 0), .found 0 2 (.hdr .chunk 0)]) (.found 0 3 (.hdr .chunk 0))).2.deliveries
+      .found 0 1 (.hdr .chunk 0) none, .found 0 2 (.hdr .chunk 0) none]) (.found 0 3 (.hdr .chunk 0) none)).2.deliveries
     = [(0, .ok (.hdr .chunk 0))] := by decide
 -- the same peer three times does not
 example : (step (run [.get 0 0 { quorum := .majority, target := none, isReg := false },
-      .found 0 1 (.hdr .chunk 0), .found 0 1 (.hdr .chunk 0)]) (.found 0 1 (.hdr .chunk 0))).2.deliveries = [] := by decide
+      .found 0 1 (.hdr .chunk 0) none, .found 0 1 (.hdr .chunk 0) none]) (.found 0 1 (.hdr .chunk 0) none)).2.deliveries = [] := by decide
 -- a differing target is reported, not returned
 example : (step (run [.get 0 0 { quorum := .one, target := some (.hdr .chunk 1), isReg := false }])
-      (.found 0 1 (.hdr .chunk 0))).2.deliveries = [(0, .mismatch (.hdr .chunk 0))] := by decide
+      (.found 0 1 (.hdr .chunk 0) none)).2.deliveries = [(0, .mismatch (.hdr .chunk 0))] := by decide
 -- split at finish: the full map
 example : (step (run [.get 0 0 { quorum := .n 2, target := none, isReg := false },
-      .found 0 1 (.hdr .chunk 0), .found 0 2 (.hdr .chunk 1)]) (.finished 0)).2.deliveries
+      .found 0 1 (.hdr .chunk 0) none, .found 0 2 (.hdr .chunk 1) none]) (.finished 0)).2.deliveries
     = [(0, .split [(.hdr .chunk 0, [1]), (.hdr .chunk 1, [2])])] := by decide
 -- merges
 example : mergeSplit [.txs [0, 1], .txs [2, 1]] = some (.txs [0, 1, 2]) := by decide
@@ -758,6 +900,13 @@ end SafeNet.Props.C05
 #print axioms SafeNet.Props.C05.targetMatch_iff_equals
 #print axioms SafeNet.Props.C05.ok_equals_target
 #print axioms SafeNet.Props.C05.split_returns_all_or_merge
+#print axioms SafeNet.Props.C05.foreign_key_returned_witness
+#print axioms SafeNet.Props.C05.not_okCarriesRequestedKey
+#print axioms SafeNet.Props.C05.ok_key_partial
+#print axioms SafeNet.Props.C05.quorum_counts_foreign_key_witness
+#print axioms SafeNet.Props.C05.not_okHasQuorumForRequestedKey
+#print axioms SafeNet.Props.C05.ok_has_quorum_for_key_partial
+#print axioms SafeNet.Props.C05.keys_are_events
 #print axioms SafeNet.Props.C05.one_outcome_each
 #print axioms SafeNet.Props.C05.terminating_event_answers_all
 #print axioms SafeNet.Props.C05.deliveries_only_on_removal
